@@ -63,7 +63,7 @@ func genC04(t *rapid.T) c04Case {
 		l := fmt.Sprintf("r%d", i)
 		r := c04Rule{Id: fmt.Sprintf("R%d", i+1)}
 		r.When = rapid.SampledFrom([]string{"const", "arr", "arr", "other"}).Draw(t, l+".when")
-		r.Cond = rapid.SampledFrom([]string{"", "", "f", "f", "join", "or", "none-match"}).Draw(t, l+".cond")
+		r.Cond = rapid.SampledFrom([]string{"", "", "f", "f", "join", "or", "none-match", "orcode", "notcode"}).Draw(t, l+".cond")
 		na := rapid.IntRange(1, 3).Draw(t, l+".nactions")
 		for j := 0; j < na; j++ {
 			r.Actions = append(r.Actions, rapid.SampledFrom([]string{"value", "value", "value", "out", "throw", "syntax"}).Draw(t, fmt.Sprintf("%s.a%d", l, j)))
@@ -111,6 +111,21 @@ func (r c04Rule) condition() M {
 		return M{"or": A{M{"pattern": M{"f": "?y"}}, M{"pattern": M{"g": "?y"}}}}
 	case "none-match":
 		return M{"pattern": M{"nothing": "?y"}}
+	case "orcode":
+		// two code disjuncts, each binding a different variable
+		return M{"or": A{
+			M{"code": "({y: 'fromfirst'})", "sem": M{"kind": "objconst", "target": "?y", "val": "fromfirst"}},
+			M{"code": "({z: 'fromsecond'})", "sem": M{"kind": "objconst", "target": "?z", "val": "fromsecond"}},
+		}}
+	case "notcode":
+		// the negated query binds ?z and then fails: ?z must not leak
+		return M{"and": A{
+			M{"not": M{"and": A{
+				M{"code": "({z: 'tmp'})", "sem": M{"kind": "objconst", "target": "?z", "val": "tmp"}},
+				M{"code": "false", "sem": M{"kind": "const", "keep": false}},
+			}}},
+			M{"pattern": M{"f": "?y"}},
+		}}
 	}
 	return nil
 }
